@@ -100,7 +100,7 @@ def make_signal(spec, dtype=np.float64, n=None):
     elif kind == "loud_quiet":
         # large dynamic range over time: a loud first part, then a part ~90 dB lower (still far above round-off)
         x = rng.standard_normal(n) * scale
-        x[: n // 2] *= 3e4
+        x[: n // 2] *= 3e4 if np.dtype(dtype).itemsize > 2 else 100.0  # half precision overflows at 65504
     elif kind == "step":
         x = np.zeros(n)
         if n:
@@ -553,4 +553,6 @@ def log_floor_configs():
 
 
 def threshold_configs():
-    return st.one_of(st.none(), st.none(), st.none(), st.sampled_from([{"EFFECTIVE_SUPPORT_THRESHOLD": 1e-3}, {"EFFECTIVE_SUPPORT_THRESHOLD": 1e-4}, {"EFFECTIVE_SUPPORT_THRESHOLD": 2e-3}]))
+    # default twice in three; otherwise raised (1e-3, 2e-3) or lowered (1e-4 .. 1e-6: a value frozen at import time
+    # then cuts hundreds of thresholds too early)
+    return st.one_of(st.none(), st.none(), st.sampled_from([{"EFFECTIVE_SUPPORT_THRESHOLD": v} for v in (1e-3, 1e-4, 2e-3, 1e-5, 1e-6)]))
